@@ -29,6 +29,8 @@ func isTakeCall(c *ssa.CallCommon) bool {
 
 func runC15(p *Prog, r *Report) {
 	r.Min("C15.R6", 5)
+	r.Min("C15.R7", 3)
+	checkOneProbePerScan(p, r)
 	// R6: the configured rate is the written rate - the C18 obligations of the --rate parser re-evaluated
 	// (a window read too short or a count read too large makes probes leave faster than asked)
 	{
@@ -352,6 +354,27 @@ func checkLimiterWiring(p *Prog, r *Report, wrapperTypes map[string]*ssa.Functio
 							}
 						}
 					}
+					// no other limiter option: WithSlack(n) lets up to n unspent probes leave back to back after a stall
+					extraOpt := ""
+					if okv {
+						for _, e := range elems {
+							if pc, ok := e.(*ssa.Call); ok {
+								switch calleeFull(&pc.Call) {
+								case "go.uber.org/ratelimit.Per", "go.uber.org/ratelimit.WithoutSlack":
+								default:
+									extraOpt = calleeFull(&pc.Call)
+								}
+							} else {
+								extraOpt = s.Term(e)
+							}
+						}
+						if len(elems) > 2 {
+							extraOpt = fmt.Sprintf("%d options", len(elems))
+						}
+					}
+					if extraOpt != "" {
+						r.Viol("C15.R4", key+"/options", pos, "the limiter takes no option besides Per(window) (and optionally WithoutSlack): the burst allowance stays the library's fixed default", "extra limiter option: "+extraOpt, s.Describe(p)...)
+					}
 					r.Check(ok0 && f0 == "rateCount" && perOK && s.Same(b0, b1), "C15.R4", key, pos, "the limiter is ratelimit.New(X.rateCount, ratelimit.Per(X.rateWindow)) with both values from the same configuration X",
 						"limiter arguments: count="+s.Term(lc.Call.Args[0])+fmt.Sprintf(" per-option present=%v", perOK), s.Describe(p)...)
 				}
@@ -514,4 +537,89 @@ func staticReachedFrom(p *Prog, root string, fn *ssa.Function) bool {
 		return false
 	}
 	return walk(start, 3)
+}
+
+// checkOneProbePerScan (R7): the limiter is charged once per Scan call, so a Scan must not open more
+// connections than its protocol needs: no dial / HTTP request inside a loop, and the SOCKS5 probe dials at
+// most once on every path (a silent retry behind one charge doubles the rate towards targets that drop).
+func checkOneProbePerScan(p *Prog, r *Report) {
+	isDial := func(c *ssa.CallCommon) bool {
+		n := calleeName(c)
+		if n == "DialContext" || n == "Dial" || n == "DialTimeout" {
+			return true
+		}
+		if f := StaticCallee(c); f != nil && f.Pkg != nil && f.Pkg.Pkg.Path() == "net/http" && (n == "Do" || n == "Get") {
+			return true
+		}
+		return false
+	}
+	reach := map[*ssa.Function]bool{}
+	var reaches func(f *ssa.Function, d int) bool
+	reaches = func(f *ssa.Function, d int) bool {
+		if f == nil || f.Blocks == nil || d > 4 {
+			return false
+		}
+		if v, ok := reach[f]; ok {
+			return v
+		}
+		reach[f] = false
+		for _, b := range f.Blocks {
+			for _, in := range b.Instrs {
+				if ci, ok := in.(ssa.CallInstruction); ok {
+					if isDial(ci.Common()) {
+						reach[f] = true
+						return true
+					}
+					if cal := StaticCallee(ci.Common()); cal != nil && cal.Pkg == f.Pkg && reaches(cal, d+1) {
+						reach[f] = true
+						return true
+					}
+				}
+			}
+		}
+		return false
+	}
+	for _, fn := range p.Implementers(modPath+"/pkg/scan", "Scanner", "Scan") {
+		pk := lastElem(fn.Pkg.Pkg.Path())
+		if pk != "socks5" && pk != "elastic" && pk != "docker" {
+			continue
+		}
+		name := FuncName(fn)
+		pos := p.Pos(fn.Pos())
+		ok, why := true, ""
+		// connection-opening calls (direct or through same-package helpers) in loops
+		for g := range p.staticReach(fn) {
+			if g.Pkg != fn.Pkg {
+				continue
+			}
+			for h := range LoopHeaders(g) {
+				for b := range loopBlocks(h) {
+					for _, in := range b.Instrs {
+						if ci, isCI := in.(ssa.CallInstruction); isCI {
+							if isDial(ci.Common()) || (StaticCallee(ci.Common()) != nil && StaticCallee(ci.Common()).Pkg == fn.Pkg && reaches(StaticCallee(ci.Common()), 0)) {
+								ok, why = false, "a connection is opened inside a loop in "+FuncName(g)
+							}
+						}
+					}
+				}
+			}
+		}
+		if pk == "socks5" {
+			for _, s := range Paths(fn).Segs {
+				k := 0
+				for _, e := range s.Events {
+					if e.Kind != EvCall || e.Call == nil {
+						continue
+					}
+					if isDial(e.Call) || (StaticCallee(e.Call) != nil && StaticCallee(e.Call).Pkg == fn.Pkg && reaches(StaticCallee(e.Call), 0)) {
+						k++
+					}
+				}
+				if k > 1 {
+					ok, why = false, fmt.Sprintf("a path of Scan opens %d connections for one limiter charge", k)
+				}
+			}
+		}
+		r.Check(ok, "C15.R7", name+"/one-probe-per-charge", pos, "one Scan call (one limiter charge) opens no connection in a loop, and the SOCKS5 probe dials at most once", why)
+	}
 }
